@@ -5,6 +5,9 @@ package node
 import (
 	"context"
 	"fmt"
+	"io"
+	"log"
+	"os"
 	"path/filepath"
 	"sync"
 	"time"
@@ -146,3 +149,10 @@ func (n *Node) Monitors(name string) (sig, msg string) {
 }
 
 var _ = context.Background
+
+func init() {
+	// LiteFS logs through the standard logger; keep test output readable unless asked.
+	if os.Getenv("VERIF_LOG") == "" {
+		log.SetOutput(io.Discard)
+	}
+}
